@@ -18,7 +18,8 @@ type c10Case struct {
 	Mix    int   `json:"mix"`  // 0 all P2PKH, 1 first is data (200 bytes), 2 alternate data/std, 3 first is the payload-less 00 6a, 4 first is the bare 6a
 	Dest   int   `json:"dest"` // see c10Dest
 	Q      quote `json:"quote"`
-	Rel    int   `json:"rel"` // available amount relative to the reference thresholds
+	Rel    int   `json:"rel"`                  // available amount relative to the reference thresholds
+	QForm  int   `json:"quote_form,omitempty"` // how the quote object is put together, see quote.libForm
 }
 
 // destinations: 0 address, 1 P2PKH script, 2 23-byte P2SH-form, 3 35-byte P2PK, 4 67-byte P2PK,
@@ -132,7 +133,7 @@ func c10Check(c c10Case) (fs []rep.Finding) {
 	}
 	before := tx.Bytes()
 	beforeExt := tx.ExtendedBytes()
-	fq := c.Q.lib()
+	fq := c.Q.libForm(c.QForm)
 	var err error
 	switch {
 	case c.Dest == 0:
@@ -249,7 +250,7 @@ var c10Quotes = []quote{
 
 func init() {
 	p := register(&Prop{ID: "C10", Level: "exploration",
-		Rule: "exhaustive product: inputs 1..3 P2PKH (unsigned / signed / first signed / last signed / unsigned and read back from its extended serialisation) x output counts {0,1,2,3,251,252,253,254} x output mix (all standard / first data / alternating data / first the payload-less `00 6a` / first the bare `6a` / last one of 8 near-data scripts: `6a 00`, `6a 01 42`, `00 6a` + push, `00`, `00 51 6a`, empty, OP_RETURN not first, 75-byte payload) x 11 change destinations (address, P2PKH script, 23-byte P2SH form, 35- and 67-byte P2PK, 1-, 100- and 300-byte scripts, existing output first/last/out of range) x 15 fee quotes (incl. >1 sat/byte, non-integral rates, unequal std/data rates and denominators) x 14 placements of the available amount relative to the big-integer reference thresholds (inputs<outputs, 0, fee-2..fee+3, fee+dust-1..fee+dust+2, just above the slack, ample). Oracle = the post-conditions of the statement computed with the reference fee model: earlier outputs and inputs untouched, outputs <= inputs, if changed: quoted fee(estimated final size) <= fee left <= quoted fee + ceil(9 bytes) + 9; if unchanged: remainder after the fee a change output needs <= dust (+ the same slack). distinct_nontrivial = distinct cases on which change returned without error",
+		Rule: "exhaustive product: inputs 1..3 P2PKH (unsigned / signed / first signed / last signed / unsigned and read back from its extended serialisation) x output counts {0,1,2,3,251,252,253,254} x output mix (all standard / first data / alternating data / first the payload-less `00 6a` / first the bare `6a` / last one of 8 near-data scripts: `6a 00`, `6a 01 42`, `00 6a` + push, `00`, `00 51 6a`, empty, OP_RETURN not first, 75-byte payload) x 11 change destinations (address, P2PKH script, 23-byte P2SH form, 35- and 67-byte P2PK, 1-, 100- and 300-byte scripts, existing output first/last/out of range) x 15 fee quotes (for the small shapes also assembled with mislabelled, unlabelled and relabelled Fee objects) (incl. >1 sat/byte, non-integral rates, unequal std/data rates and denominators) x 14 placements of the available amount relative to the big-integer reference thresholds (inputs<outputs, 0, fee-2..fee+3, fee+dust-1..fee+dust+2, just above the slack, ample). Oracle = the post-conditions of the statement computed with the reference fee model: earlier outputs and inputs untouched, outputs <= inputs, if changed: quoted fee(estimated final size) <= fee left <= quoted fee + ceil(9 bytes) + 9; if unchanged: remainder after the fee a change output needs <= dust (+ the same slack). distinct_nontrivial = distinct cases on which change returned without error",
 	})
 	sp := NewSpace(p, "change", c10Check)
 	p.Run = func(r *rep.Run, thorough bool) {
@@ -290,6 +291,11 @@ func init() {
 								for _, q := range c10Quotes {
 									for rel := 0; rel < 14; rel++ {
 										yield(c10Case{NIn: nin, Signed: sg, NOut: nout, Mix: mix, Dest: d, Q: q, Rel: rel})
+										if nin == 1 && sg == 0 && nout <= 2 && mix <= 1 && d <= 1 {
+											for _, form := range []int{1, 2, 5} {
+												yield(c10Case{NIn: nin, Signed: sg, NOut: nout, Mix: mix, Dest: d, Q: q, Rel: rel, QForm: form})
+											}
+										}
 									}
 								}
 							}
